@@ -108,7 +108,7 @@ func c20Op(a *c20Actor, kind int) [32]byte {
 			h.Write(b2)
 		}
 	case 2:
-		sn := models.Snssai{Sst: int32(r.Intn(256)), Sd: "010203"}
+		sn := models.Snssai{Sst: int32(r.Intn(256)), Sd: sdString(r)}
 		b := nasTestpacket.GetUlNasTransport_PduSessionEstablishmentRequest(uint8(r.Intn(256)), nasMessage.ULNASTransportRequestTypeInitialRequest, "internet", &sn)
 		h.Write(b)
 		m := nas.NewMessage()
